@@ -12,6 +12,7 @@
   delete_resource          : (C10 contract) descriptors and streams filtered with the same matcher, dropped streams drained
   iterable_loader / load / sources . process_resources : existing streams first (untouched), new streams appended
 """
+from contracts import findings_natives as KF
 from contracts.common import fn_named
 from contracts.common import (same_stream, Item, mk_resource, mk_package2, resource_desc, run_spec, ghost_row, expect_no_raise_or_same,
                               row_transducer, _b, selector, tree_writes_under)
@@ -644,4 +645,5 @@ ITEMS = [
     Item('delete_resource.func', K10.sym_delete_resource, [], P + 'delete_resource.py::delete_resource.func'),
     Item('appenders', sym_appenders, [], 'dataflows/helpers/iterable_loader.py::iterable_loader.process_resources'),
     Item('pipelines', None, [('conservation', nat_restructure), ('concatenate-in-place', nat_concatenate_in_place), ('concatenate-projection', nat_concatenate_projection), ('load-reuse', nat_load_reuse), ('duplicate-aliasing', nat_duplicate_aliasing)], None),
+    Item('recorded-findings', None, [('bounded', KF.nat_findings_c16)], 'dataflows/processors/sources.py::sources.process_datapackage'),
 ]
